@@ -194,7 +194,12 @@ func c04Run(p c04Params, ch vrt.Chooser, trace bool) (*world.World, *vrt.Exec, *
 // than one Write; what TCP delivers of a message in flight when the connection dies is not corebgp's doing.
 // A fragment followed by other bytes, or cut by corebgp's own Close while the peer still listens, is.)
 func cutByPeer(c *vnet.Conn, rest []byte) bool {
-	if len(rest) == 0 || c.RstCutAt != len(c.Sent) {
+	return c.RstCutAt == len(c.Sent) && fragmentOfOneWriter(c, rest)
+}
+
+// fragmentOfOneWriter: the trailing fragment is the beginning of one message written by one goroutine.
+func fragmentOfOneWriter(c *vnet.Conn, rest []byte) bool {
+	if len(rest) == 0 {
 		return false
 	}
 	for i := 0; i < len(rest) && i < 16; i++ {
@@ -229,7 +234,9 @@ func c04Judge(p c04Params, w *world.World, e *vrt.Exec, o *c04Obs) (string, stri
 		if err != nil {
 			return "malformed-output", fmt.Sprintf("%s: bytes written by corebgp are not a sequence of well-formed messages: %v", c, err)
 		}
-		if len(rest) > 0 && !cutByPeer(c, rest) && !p.tailCut {
+		if len(rest) > 0 && !cutByPeer(c, rest) && !p.tailCut && !(vnet.OpaqueDefault && fragmentOfOneWriter(c, rest)) {
+			// (on an opaque connection a tree may need two Writes per message; its own Close between them - on
+			// a session that is ending anyway - is not judged there, the interleaving with another writer is)
 			return "partial-message", fmt.Sprintf("%s: the byte stream written by corebgp ends inside a message (%d stray bytes)", c, len(rest))
 		}
 		for i, m := range ms {
@@ -581,7 +588,16 @@ func init() {
 		Rule:   "stateless model checking of the real (rewritten) corebgp: WriteUpdate called from inside OnEstablished, from inside the handler and from 1-3 free goroutines (bodies of 0, 1, 23, 4077 bytes) whose writes coincide in virtual time with the keepalive timer (hold 9 s) and with one of {nothing, remote FIN, received NOTIFICATION, handler-returned NOTIFICATION, Close, an UPDATE followed by RST (writes from inside the handler then fail and must report it)}; after a teardown corebgp reconnects and the old writers are used again; variants in which OnClose joins the writers' pending calls; two peers Established at once, each with a writer; all schedules within the delay bound (2 quick / 3 thorough; 3 writers: one less); strict frame parser over every byte corebgp wrote per connection, multiset/ordering comparison with the WriteUpdate return values, race detector on; plus a stalled-reader scenario on a network with a bounded window (blocked and timed-out writes: whatever is on the wire must still be whole messages and the session must end); distinct_nontrivial = distinct observable outcomes",
 		Assume: []string{"delay-bounded schedules", "virtual network (A3): net.Conn.Write is atomic with respect to concurrent writers (true for *net.TCPConn)", "race detector scope A5"},
 		Run: func(c *harness.Ctx) {
-			for i, s := range withLegacy(c04Scenarios(c.Thorough()), legacyEvery(c.Thorough(), 3)) {
+			base := c04Scenarios(c.Thorough())
+			scns := withLegacy(base, legacyEvery(c.Thorough(), 3))
+			for i, s := range base {
+				// connections that are not *net.TCPConn: every free-writer scenario in thorough, the ones in
+				// which corebgp itself writes at the same time in quick
+				if strings.HasPrefix(s.Name, "free") && (c.Thorough() || i%2 == 0 || strings.Contains(s.Name, "hdr-fault") || strings.Contains(s.Name, "/none/")) {
+					scns = append(scns, opaqueTwin(s))
+				}
+			}
+			for i, s := range scns {
 				if !c.Mine(i) {
 					continue
 				}
